@@ -150,6 +150,18 @@ class Env:
         self.refused = []         # (coroutine weakref, name) of payloads refused by do()
         self.task_names = {}      # id(task) -> instance name
         self.task_inst = {}       # instance name -> Task
+        self.waiting = {}         # actor -> (step, boundary number, notification) while in op_wait
+        self.on_wait_end = None
+        self.shared = {}          # shared notification objects (spec key 'share')
+        objects = program.get('objects', {})
+        # shadow valuation of the atoms, maintained from the program's own actions only
+        # (valid for resources only while nobody borrows: C08 programs do not)
+        self.shadow = {
+            'flags': [False] * objects.get('flags', 0),
+            'tracked': list(objects.get('tracked', [])),
+            'done': {},
+            'levels': [dict(res['levels']) for res in objects.get('resources', [])],
+        }
         self.tasks = {}           # child name -> Task
         self.ctxs = {}            # activity name -> Ctx
         self.scopes = {}          # scope step id -> Scope object
@@ -338,6 +350,17 @@ def count_steps(program):
 
 # -- notifications -------------------------------------------------------------------
 def make_notif(env, spec):
+    share = spec.get('share')
+    if share is not None:
+        try:
+            return env.shared[share]
+        except KeyError:
+            result = env.shared[share] = _make_notif(env, spec)
+            return result
+    return _make_notif(env, spec)
+
+
+def _make_notif(env, spec):
     kind = spec['k']
     obj = env.objects
     if kind == 'delay':
@@ -459,6 +482,7 @@ async def _activity(env, ctx, spec):
                                      exc_name(exc) if kind == 'failed' else kind))
         raise
     env.log(ctx.name, 'finish')
+    env.shadow['done'][spec['name']] = True
     if ctx.parent_key is not None and env.sess.armed and env.sess.stack:
         info = env.scope_inst.get(ctx.parent_key)
         if info is not None:
@@ -510,18 +534,29 @@ def spawn(env, ctx, scope, key, child):
 
 
 async def op_wait(env, ctx, step):
-    await make_notif(env, step['n'])
+    notif = make_notif(env, step['n'])
+    env.waiting[ctx.name] = (step, env.sess.n, notif)
+    try:
+        await notif
+    finally:
+        del env.waiting[ctx.name]
+    if env.on_wait_end is not None:
+        env.on_wait_end(ctx, step, notif)
 
 
 async def op_setflag(env, ctx, step):
+    # the shadow valuation follows the program's own actions, in the same turn as the call
+    env.shadow['flags'][step['f']] = bool(step.get('v', True))
     await env.objects['flags'][step['f']].set(step.get('v', True))
 
 
 async def op_settracked(env, ctx, step):
     tracked = env.objects['tracked'][step['i']]
     if 'add' in step:
+        env.shadow['tracked'][step['i']] += step['add']
         await (tracked + step['add'])
     else:
+        env.shadow['tracked'][step['i']] = step['v']
         await tracked.set(step['v'])
     return tracked.value
 
@@ -603,15 +638,21 @@ async def op_borrow(env, ctx, step):
 async def op_resource(env, ctx, step):
     res = env.objects['resources'][step['r']]
     how = step['how']
+    shadow = env.shadow['levels'][step['r']]
     if how == 'increase':
+        for key, value in step['amounts'].items():
+            shadow[key] += value
         await res.increase(**step['amounts'])
     elif how == 'decrease':
         current = dict(res.levels)
         if all(current[key] >= value for key, value in step['amounts'].items()):
+            for key, value in step['amounts'].items():
+                shadow[key] -= value
             await res.decrease(**step['amounts'])
         else:
             return 'skipped'
     else:
+        shadow.update(step['amounts'])
         await res.set(**step['amounts'])
     return sorted(dict(res.levels).items())
 
